@@ -266,15 +266,16 @@ def run(facts, res):
                     continue
                 n5 += 1
                 extra = []
-                for l in lits_of(cb, bi, facts):
-                    if _copy_guard_ok(l):
+                from ..conds import unaccepted
+                all_l = lits_of(cb, bi, facts)
+                for l in all_l:
+                    if not l.derived and _copy_guard_ok(l):
                         sel = {callee_name(x) for x in walk(l.term) if x[0] == "call"} & (SEL | {"filter", "filter_map"}) \
                             if l.kind == "variant" and l.variants == {"Some"} and callee_name(peel(l.term)) == "next" else set()
                         if sel:
                             res.violation("L5", "meld|source-not-whole:%s" % ",".join(sorted(sel)),
                                           "a meld copy loop iterates a selected part of the peer's items (%s)" % sorted(sel), cb.loc(t.line))
-                        continue
-                    extra.append(repr(l))
+                extra = [repr(l) for l in unaccepted(all_l, _copy_guard_ok)]
                 res.instance("L5", "%s: copy guarded only by absence / class exclusion / successful read: %s" % (cb.path, not extra), cb.loc(t.line))
                 if extra:
                     res.violation("L5", "meld|copy-under-extra-condition",
